@@ -78,6 +78,12 @@ def xf_case(draw):
         xf["R"] = np.asarray(R).tolist()
         xf["pose"] = pcls
         xf["t"] = [draw(st.floats(-10, 10)) for _ in range(3)]
+        whole = [c for c in inside if c["noise"] == 0 and c["idx"] == list(range(c["idx"][0], c["idx"][0] + len(c["idx"])))]
+        if whole and draw(st.booleans()):
+            # the pattern is literally cut out of the caller's coordinate table (a slice of the array the structure was
+            # built from) and then moved with Atoms.translate(): a rigid translation of the pattern, done in place
+            c = whole[draw(hperm.integers(0, len(whole) - 1))]
+            xf = {"kind": "cut-translate", "rows": [c["idx"][0], c["idx"][-1] + 1], "t": xf["t"]}
     elif kind == "hints":
         pat = {"pos": base["ppos"], "els": base["pels"]}
         forms = [f for f in gen_geom.hint_forms(len(base["ppos"])) if f != "none"] or ["none"]
@@ -155,6 +161,27 @@ def run_transformed(case, s, p, xf, stats):
         s2 = mf.atoms_from(np.array(case["spos"]) @ R.T, case["sels"], cell @ R.T)
         idx = mf.find(s2, p, atol, hints, seeds, what="search-in-rotated-crystal")
         return [tuple(sorted(int(x) for x in m)) for m in idx], 1, hints
+    if kind == "cut-translate":
+        from mofun import Atoms
+        table = np.array(case["spos"], dtype=float)
+        a, b = xf["rows"]
+        with silenced():
+            s2 = Atoms(elements=list(case["sels"]), positions=table, cell=np.array(case["cell"], float))
+            p2 = Atoms(elements=list(case["pels"]), positions=table[a:b])
+        first = [tuple(sorted(int(x) for x in m)) for m in mf.find(s2, p2, atol, hints, seeds, what="search-with-pattern-cut-from-table")]
+        with silenced():
+            p2.translate(np.array(xf["t"]))
+        idx = mf.find(s2, p2, atol, hints, seeds, what="search-after-translating-the-cut-pattern")
+        second = [tuple(sorted(int(x) for x in m)) for m in idx]
+        if sorted(first) != sorted(second):
+            # exact relation: the same pattern object, translated, against the same structure object
+            lost, new = sorted(set(first) - set(second)), sorted(set(second) - set(first))
+            in_thr = ref_match.in_threshold(case["ppos"], hints, atol)
+            if any(group_class(case, g, in_thr) != "grey" for g in lost + new):
+                raise Violation("result-depends-on-representation", "pattern cut from the structure's coordinate table, then "
+                                "moved with translate(%r): groups %r found before the move only, %r after it only" %
+                                (xf["t"], lost, new))
+        return second, 1, hints
     if kind == "pattern-motion":
         pp = np.array(case["ppos"]) @ np.array(xf["R"]).T + np.array(xf["t"])
         p2 = mf.atoms_from(pp, case["pels"])
